@@ -633,15 +633,18 @@ static int MY_FAST_CALL LzmaDec_DecodeReal2(CLzmaDec *p, SizeT limit, const Byte
       UInt32 rem = p->prop.dicSize - p->processedPos;
       if (limit - p->dicPos > rem) {
           if (p->dicBufSize < p->prop.dicSize) {
-              p->dicBufSize = p->prop.dicSize;
-              if (p->dicBufSize > memlimit) {
+              // Do not change dicBufSize before the buffer has actually been
+              // enlarged: the decoder state stays in use after an error.
+              SizeT newDicBufSize = p->prop.dicSize;
+              if (newDicBufSize > memlimit) {
                   return SZ_ERROR_MEM;
               }
-              Byte *tmp = realloc(p->dic, p->dicBufSize);
+              Byte *tmp = realloc(p->dic, newDicBufSize);
               if (!tmp) {
                   return SZ_ERROR_MEM;
               }
               p->dic = tmp;
+              p->dicBufSize = newDicBufSize;
           }
         limit2 = p->dicPos + rem;
         }
@@ -1046,18 +1049,19 @@ SRes LzmaDec_DecodeToBuf(CLzmaDec *p, Byte *dest, SizeT *destLen, const Byte *sr
     if (p->dicPos == p->dicBufSize) {
       if (p->dicBufSize < p->prop.dicSize) {
         if (p->dicBufSize < memlimit) {
-          p->dicBufSize = p->dicBufSize << 2;
-          if (p->dicBufSize > memlimit) {
-            p->dicBufSize = memlimit;
+          SizeT newDicBufSize = p->dicBufSize << 2;
+          if (newDicBufSize > memlimit) {
+            newDicBufSize = memlimit;
           }
-          if (p->dicBufSize > p->prop.dicSize) {
-            p->dicBufSize = p->prop.dicSize;
+          if (newDicBufSize > p->prop.dicSize) {
+            newDicBufSize = p->prop.dicSize;
           }
-          Byte *tmp = realloc(p->dic, p->dicBufSize);
+          Byte *tmp = realloc(p->dic, newDicBufSize);
           if (!tmp) {
             return SZ_ERROR_MEM;
           }
           p->dic = tmp;
+          p->dicBufSize = newDicBufSize;
         } else {
           return SZ_ERROR_MEM;
         }
